@@ -28,6 +28,8 @@ class Parser:
         (?P<value>^\s*=\s*(?P<name>\S.*))
         """, regex.IGNORECASE | regex.X | regex.DOTALL
     )
+    # Line breaks are dropped, except inside text literals and quoted names.
+    _re_newline = regex.compile(r"""("(?:[^"]|"")*"|'(?:[^']|'')*')|\n""")
     ast_builder = AstBuilder
     filters = [
         Error, String, Number, Range, OperatorToken, Separator, Function, Array,
@@ -39,7 +41,9 @@ class Parser:
 
     def ast(self, expression, context=None):
         try:
-            match = self.is_formula(expression.replace('\n', '')).groupdict()
+            match = self.is_formula(
+                self._re_newline.sub(lambda m: m.group(1) or '', expression)
+            ).groupdict()
             expr = match['name']
         except (AttributeError, KeyError):
             raise FormulaError(expression)
